@@ -5,6 +5,7 @@
 -/
 import Bridge.Abs
 import PtaProofs.Lemmas.RuleAlgebra
+import PtaProofs.Lemmas.AnythingDedup
 namespace Pta.C12
 open Pta
 
@@ -58,6 +59,23 @@ theorem alias_anything (mt : Str → Str → Bool) (g : PGraph Str) (S : List Fi
       = assertApplies mt (mkRule false false true dir true S S) g := by
   simp [assertApplies, anythingMisused, convertAliases, mkRule, hS]
 
+/-- the `anything` alias for EVERY batch of existing names (no de-duplication hypothesis), as verdict class:
+    `S should not import anything` has the verdict of `S should not import modules except S`, on every graph whose
+    hierarchy edges cover the dotted nesting of its nodes (`HierClosed`: every graph `buildGraph` constructs, see
+    `Pta.C11.hierClosed_buildGraph`).  The names must exist: see `Pta.C11.anything_dedup_absent_name_witness`. -/
+theorem alias_anything_verdict (mt : Str → Str → Bool) (g : PGraph Str) (hc : HierClosed g) (S : List Filter) (dir : Bool)
+    (hS : namesOnly S = true) (hn : ∀ f ∈ S, g.hasNode f.id = true) :
+    verdictOf mt g { cfg := { subjects := some S, shouldNot := true, importDir := some dir, anything := true }, next := some false }
+      = verdictOf mt g (mkRule false false true dir true S S) :=
+  Pta.alias_anything_verdict_lemma mt g hc S dir hS hn
+
+/-- what `_convert_aliases` does for every subject list (outcome AND rewritten rule object): the alias is the
+    `except` rule on the de-duplicated subjects -/
+theorem alias_anything_dedup (mt : Str → Str → Bool) (g : PGraph Str) (S : List Filter) (dir : Bool) :
+    assertApplies mt { cfg := { subjects := some S, shouldNot := true, importDir := some dir, anything := true }, next := some false } g
+      = assertApplies mt (mkRule false false true dir true (dedupSubjects S) (dedupSubjects S)) g :=
+  Pta.anything_alias_dedup mt g S dir
+
 /-- monotonicity: a passing `should` rule (with or without `except`) stays passing -/
 theorem monotone_should (mt : Str → Str → Bool) (g : PGraph Str) (u v : Str) (A B : List Filter) (dir exc : Bool)
     (hnew : g.hasEdge u v = false) :
@@ -78,5 +96,15 @@ def exG : PGraph Str := buildGraph ["p".toList, "p.a".toList, "p.b".toList, "q".
 example : verdictOf (fun _ _ => false) exG (mkRule true false false true false [.name "p".toList] [.name "q".toList]) = .pass := by decide
 example : verdictOf (fun _ _ => false) exG (mkRule false false true true false [.name "p".toList] [.name "q".toList]) = .fail := by decide
 example : exG.hasEdge "p.b".toList "q".toList = false := by decide
+
+/-! non-vacuity of `alias_anything_verdict`: a batch the de-duplication shrinks -/
+def exG2 : PGraph Str :=
+  buildGraph ["p".toList, "p.a".toList, "p.a.x".toList, "q".toList] [absImport "p.a.x".toList "q".toList] none
+def exS2 : List Filter := [.name "p.a".toList, .name "p.a.x".toList, .name "p".toList]
+example : HierClosed exG2 := Pta.buildGraph_hierClosed _ _ _ (by simp only [ExtBuild.NodeOf]; decide)
+example : namesOnly exS2 = true := by decide
+example : ∀ f ∈ exS2, exG2.hasNode f.id = true := by decide
+example : dedupSubjects exS2 = [.name "p".toList] := by decide
+example : verdictOf (fun _ _ => false) exG2 (mkRule false false true true true exS2 exS2) = .fail := by decide
 
 end Pta.C12
